@@ -45,18 +45,25 @@ impl Slot {
 
     /// Generates a named slot like `$xyz`
     pub fn named(s: &str) -> Slot {
+        // Only the canonical decimal of an in-range number is a numeric slot.
+        // Otherwise `$01`, `$+1` and `$1` would alias, and `x * 4` could overflow.
         if let Ok(x) = s.parse::<u32>() {
-            return Slot(x * 4); // numeric
+            if x < (1 << 30) && s == x.to_string() {
+                return Slot(x * 4); // numeric
+            }
         }
 
         SLOT_TABLE.with_borrow_mut(|tab| {
             if s.starts_with("f") {
                 if let Ok(x) = s[1..].parse::<u32>() {
-                    let out = x * 4 + 1;
-                    if tab.fresh_idx <= out {
-                        tab.fresh_idx = out + 4;
+                    // same here: `$f01` must not alias `$f1`, and `out + 4` must not overflow.
+                    if x < (1 << 30) - 1 && s[1..] == x.to_string() {
+                        let out = x * 4 + 1;
+                        if tab.fresh_idx <= out {
+                            tab.fresh_idx = out + 4;
+                        }
+                        return Slot(out); // fresh
                     }
-                    return Slot(out); // fresh
                 }
             }
 
